@@ -368,6 +368,8 @@ func runCase() {
 		caseFault(res, idx, dir, seed, tier)
 	case "limits":
 		caseLimits(res, idx, dir, seed, tier)
+	case "memdb":
+		caseMemdb(res, idx, dir, seed, tier)
 	}
 	seam.Restore()
 	data, _ := json.Marshal(res)
